@@ -26,7 +26,7 @@ def octahedral():
             M = np.zeros((3, 3))
             for i, p in enumerate(perm):
                 M[i, p] = signs[i]
-            if abs(np.linalg.det(M) - 1) < 1e-9:
+            if not (abs(np.linalg.det(M) - 1) >= 1e-9):
                 out.append(M)
     return out
 
@@ -76,7 +76,7 @@ def check_one(part, A, T, tname, reflect, npat, case):
         part.fail("not-orthogonal:" + key, "returned matrix is not orthogonal (dev %.3g)" % orth, case)
         return
     d = np.linalg.det(R)
-    if abs(d - 1.0) > 1e-9:
+    if not (abs(d - 1.0) <= 1e-9):
         part.fail("improper:" + key, "returned matrix has determinant %.6f (improper rotation) for %s" % (d, tname), case)
         return
     diff = A @ R - B
@@ -88,10 +88,10 @@ def check_one(part, A, T, tname, reflect, npat, case):
     if not reflect and npat == "none" and got > TOL:
         part.fail("congruent-not-superposed:" + key, "congruent sets are not superposed (rmsd %.3g)" % got, case)
     r2 = rmsd_points(A, B)
-    if abs(r2 - got) > 1e-10:
+    if not (abs(r2 - got) <= 1e-10):
         part.fail("rmsd_points:" + key, "rmsd_points = %.12f, RMSD after the optimal alignment = %.12f" % (r2, got), case)
     Ar = reorient_points(A, B)
-    if np.abs(Ar - A @ R).max() > 1e-10:
+    if not (np.abs(Ar - A @ R).max() <= 1e-10):
         part.fail("reorient_points:" + key, "reorient_points differs from A @ R", case)
     # the same two point sets handed over as views into ONE buffer (columns of a table, interleaved rows, a window of a longer
     # array), and as float32 / Fortran-ordered copies: the answer is a function of the coordinates, not of where they live
@@ -114,7 +114,7 @@ def check_one(part, A, T, tname, reflect, npat, case):
         # comparison is on what the statement fixes: a proper rotation reaching the optimal deviation, and the reported RMSD)
         okv = Rv.shape == (3, 3) and np.abs(Rv @ Rv.T - np.eye(3)).max() < 1e-10 and abs(np.linalg.det(Rv) - 1.0) < 1e-9
         gv = float(np.sqrt(np.vdot(A @ Rv - B, A @ Rv - B) / len(A))) if okv else np.inf
-        if not okv or gv > ref + TOL or abs(rv - r2) > 1e-9:
+        if not okv or gv > ref + TOL or not (abs(rv - r2) <= 1e-9):
             part.fail("layout-dependence:%s" % lname, "the same point sets given as %s of one buffer: rotation reaches RMSD %.9f (optimum %.9f), rmsd_points %.9f vs %.9f"
                       % (lname, gv, ref, rv, r2), case)
     if reflect:
@@ -195,7 +195,7 @@ def dimer_checks(part, seed):
             m2 = np.abs((pos - ca) @ R + ca + v - posb).max()
             part.dev("dimer_transform", min(m1, m2))
             part.outcome(("dimer", m1 < 1e-8, m2 < 1e-8))
-            if min(m1, m2) > 1e-8 or abs(np.linalg.det(R) - 1) > 1e-9:
+            if min(m1, m2) > 1e-8 or not (abs(np.linalg.det(R) - 1) <= 1e-9):
                 part.fail("dimer-transform", "Dimer.transform_ab does not reproduce the relating rotation %s (dev %.3g / %.3g)" % (tname, m1, m2), case)
             else:
                 part.count("dimer_convention_%s" % ("R.T" if m1 <= m2 else "R"))
@@ -257,7 +257,7 @@ def crystal_dimer_checks(part, seed):
                 R = np.asarray(d.transform_ab[0], dtype=float)
                 pa = np.asarray(d.a.positions) - np.asarray(d.a.centroid)
                 pb = np.asarray(d.b.positions) - np.asarray(d.b.centroid)
-                if np.abs(R @ R.T - np.eye(3)).max() > 1e-9 or abs(np.linalg.det(R) - 1.0) > 1e-9:
+                if not (np.abs(R @ R.T - np.eye(3)).max() <= 1e-9) or not (abs(np.linalg.det(R) - 1.0) <= 1e-9):
                     part.fail("crystal-dimer:improper", "a dimer of crystal %s (analysed after %s) stores a matrix that is not a proper rotation" % (k, list(order[:step])), case)
                     break
                 got = float(np.sqrt(np.sum((pb @ R - pa) ** 2) / len(pa)))
